@@ -1,5 +1,5 @@
 ------------------------------- MODULE MC_FastSync -------------------------------
 EXTENDS FastSync
-AllClasses == {"body", "subvotes", "fewvotes", "voteidx", "nilpart", "nilhdr"}
-CoreClasses == {"body", "fewvotes", "subvotes"}
+AllClasses == {"body", "subvotes", "fewvotes", "boundaryvotes", "voteidx", "nilpart", "nilhdr"}
+CoreClasses == {"body", "fewvotes", "boundaryvotes", "subvotes"}
 =================================================================================
